@@ -542,6 +542,53 @@ def run_tv(ctx, model, scico):
                 ctx.count("fd:1-D code-shaped diff checked")
 
 
+def run_tv_history(ctx, model, scico):
+    """history on one TV object: it is evaluated on arrays of DIFFERENT rank one after the other (2-D then 3-D, 3-D then 2-D,
+    1-D then 3-D ...), with axes=None and with negative axes (whose meaning depends on the rank of the argument), optionally
+    constructed with an input_shape of yet another rank.  Every value is compared with the model, with the independent
+    finite-difference formula and with a fresh object."""
+    import scico.functional as F
+    import scico.numpy as snp
+
+    rng = ctx.rng
+    for _ in range(ctx.n(24, 160)):
+        cplx = bool(rng.random() < 0.25)
+        dt = np.complex128 if cplx else np.float64
+        iso, circ = bool(rng.integers(2)), bool(rng.integers(2))
+        cls = F.IsotropicTVNorm if iso else F.AnisotropicTVNorm
+        ranks = [int(r_) for r_ in rng.permutation([1, 2, 3])[: int(rng.integers(2, 4))]]
+        mode = ["none", "neg1", "neg2"][int(rng.integers(3))]
+        if mode == "neg2":
+            ranks = [r_ for r_ in ranks if r_ >= 2] or [2, 3]
+            if len(ranks) < 2:
+                ranks = [2, 3] if ranks[0] == 2 else [3, 2]
+        axes_arg = None if mode == "none" else ((-1,) if mode == "neg1" else (-1, -2))
+        pre = None
+        if rng.random() < 0.3:
+            pre = tuple(int(rng.integers(1, 4)) for _ in range(ranks[0]))
+        obj = cls(circular=circ, axes=axes_arg, input_shape=pre, input_dtype=dt)
+        for step, rank in enumerate(ranks):
+            shape = tuple(int(rng.integers(1, 4)) for _ in range(rank))
+            a = G.dy(rng, shape, cplx)
+            axes = tuple(range(rank)) if axes_arg is None else tuple(sorted(x_ % rank for x_ in axes_arg))
+            impl = _impl(lambda: float(obj(snp.array(a))))
+            fresh = _impl(lambda: float(cls(circular=circ, axes=axes_arg, input_dtype=dt)(snp.array(a))))
+            comps = [fs2b(a.real.ravel()), fs2b(a.imag.ravel())] if cplx else [fs2b(a.ravel())]
+            mod = _model(model, "feval", fn="tv", cplx=cplx, iso=iso, circular=circ, shape=list(shape), axes=list(axes), comps=comps)
+            ds = np.stack([_np_fd(a, ax, circ) for ax in axes])
+            formula = float(np.sum(np.sqrt(np.sum(np.abs(ds) ** 2, axis=0)))) if iso else float(np.sum(np.abs(ds)))
+            case = {"tv-history": {"ranks": ranks, "step": step, "axes_arg": None if axes_arg is None else list(axes_arg), "input_shape": None if pre is None else list(pre)},
+                    "iso": iso, "circular": circ, "shape": list(shape), "axes": list(axes), "cplx": cplx, "comps": comps}
+            ctx.case({k_: case[k_] for k_ in ("tv-history", "iso", "circular", "shape", "cplx")},
+                     ("tv-history", iso, circ, tuple(ranks), step, mode) if formula != 0 else None)
+            ctx.count(f"tv-history:{mode}:step{step}:rank{rank}")
+            _check(ctx, "feval.tv_history", case, impl, mod, formula, k=256)
+            if impl[0] == "ok" and fresh[0] == "ok" and not common.close(impl[1], fresh[1], k=256, rtol=1e-9):
+                ctx.disagree("feval.tv_history.fresh", case, impl[1], fresh[1],
+                             oracle=lambda _c, impl=impl, fresh=fresh, formula=formula: {"what": "a TV object that was used on an array of another rank before differs from a fresh object",
+                                                                                          "reused": impl[1], "fresh": fresh[1], "formula": formula})
+
+
 def run_tv_exhaustive(ctx, model, scico):
     """exhaustive small scope: every shape of rank <= 2 (quick) / <= 3 (thorough) with axis sizes 1..3, every non-empty
     subset of axes, both boundary modes, both norms, on a fixed non-constant real image; plus the operator itself axis by
@@ -994,6 +1041,7 @@ def correspond(ctx, model):
     run_dist(ctx, model, scico)
     run_tv(ctx, model, scico)
     run_tv_exhaustive(ctx, model, scico)
+    run_tv_history(ctx, model, scico)
     run_proxavg(ctx, model, scico)
     run_losses(ctx, model, scico)
     run_losses_block(ctx, model, scico)
